@@ -46,7 +46,9 @@ Qed.
 Lemma header_matches_self rs : header_matches rs 1 rs = true.
 Proof.
   unfold header_matches. cbn [N.eqb Pos.eqb andb]. rewrite N.eqb_refl. cbn [andb].
-  destruct rs as [|a [|b t]]; [reflexivity|apply bytes_eqb_refl|apply roots_contains_self].
+  assert (H : forallb (fun r => roots_count rs r =? roots_count rs r) rs = true)
+    by (apply forallb_forall; intros x _; apply N.eqb_refl).
+  destruct rs as [|a [|b t]]; [reflexivity|apply bytes_eqb_refl|exact H].
 Qed.
 
 Lemma zero_hdr_chunks : concat (v2hdr_chunks (mkv2 0 0 0 0 0)) = zerosN 40.
